@@ -419,6 +419,79 @@ def base_seed(ctx, R, tool, ds_cls):
     ctx.floor(R, n, 1)
 
 
+def seed_call_value(ctx, R, tool, call, what="the generator is seeded with --seed whenever it is given (0 included)"):
+    """The argument of a seeding call in a tool, read by forward substitution together with the conditions under which the
+    call runs: whenever --seed is given (None is the only "not given"; 0 is a seed) the call runs and gets --seed itself.
+    Returns False when the shape is outside what can be decided (the caller reports that)."""
+    prog = ctx.prog
+    pm = astq.parents(tool)
+    ev = SymEval(prog, tool).run()
+    st = astq.enclosing_stmt(pm, call)
+    if not ev.reached(st) or not call.args:
+        return False
+    e = ev.eval_at(st, call.args[0])
+    env, path = ev.at(st)
+    opts = ev.eval_at(st, ast.parse("options", mode="eval").body)
+    opt = S.sym("options.seed")
+
+    def named(x):
+        sub = {}
+        for y in S.walk(x):
+            if y.op == "call" and isinstance(y.args[0], str) and y.args[0].startswith(".") and len(y.args) == 2 and y.args[1] == opts:
+                sub[y] = S.sym("options" + y.args[0])
+        return S.subst(x, sub) if sub else x
+    e = named(e)
+    path = [named(t) for t in path]
+
+    def about_seed(t):
+        return any(x == opt for x in S.walk(t))
+
+    def none_test(t):
+        """True: holds exactly when a seed is given; False: exactly when none is given; None: something else"""
+        if t.op == "cmp" and t.args[0] in ("is", "is not", "==", "!=") and t.args[1] == opt and t.args[2] == S.NONE:
+            return t.args[0] in ("is not", "!=")
+        if t.op == "not":
+            r = none_test(t.args[0])
+            return None if r is None else (not r)
+        return None
+    # guards of the call
+    for t in path:
+        if not about_seed(t):
+            continue
+        r = none_test(t)
+        if r is True:
+            continue
+        if r is False:
+            ctx.bad(R, tool, st, "the seeding call runs only when no seed is given", what)
+            return True
+        ctx.bad(R, tool, st, "the seeding call is guarded by `%s`: `--seed 0` is falsy, so a run with the fixed seed 0 is not seeded and two such runs differ"
+                % S.show(t)[:80], what)
+        return True
+    n = 0
+    for tests, leaf in strip_cond(e):
+        given = None
+        for lbl, t in tests:
+            r = none_test(t)
+            if r is not None:
+                given = r if lbl == "T" else (not r)
+        if given is False:
+            continue
+        n += 1
+        uses_truth = [x for x in S.walk(leaf) if x.op in ("or", "and") and opt in x.args] or \
+            [t for lbl, t in tests if t == opt or (t.op in ("bool", "not") and t.args[0] == opt)]
+        if uses_truth:
+            ctx.bad(R, tool, st, "the seed passed on is %s: `--seed 0` is falsy and is treated as if no seed were given, so every invocation draws a fresh "
+                    "seed and two runs with the fixed seed 0 differ" % S.show(leaf)[:80], what)
+            return True
+        if leaf != opt:
+            ctx.bad(R, tool, st, "with --seed given the generator is seeded with %s, not options.seed" % S.show(leaf)[:100], what)
+            return True
+    if n == 0:
+        return False
+    ctx.ok(R, tool.loc(call), what, "argument %s under %s" % (S.show(e)[:80], S.show(S.eand(*path))[:80] if path else "no guard"))
+    return True
+
+
 # --------------------------------------------------- seed offsets are process-independent
 NONDET_NAMES = {"hash", "id"}
 NONDET_QUAL = ("time.", "os.urandom", "os.getpid", "random.", "uuid.", "secrets.", "datetime.", "numpy.random.", "os.times")
